@@ -489,7 +489,7 @@ def impl_reader(lines, mode, override, channel="lines"):
             while n < len(lines) + 5:          # bounded: a reader that never stops is reported, not waited for
                 n += 1
                 try:
-                    r = next(it)
+                    r = it.next() if (len(lines) % 2) else next(it)      # both spellings of "next record"
                 except StopIteration:
                     break
                 except Exception as e:  # noqa
@@ -653,7 +653,8 @@ def impl_writer(hlines, mode, specs, channel="fd", hmode=None):
                     w = MafWriter.from_path(path, header=h, validation_stringency=py_mode(mode))
             except Exception as e:  # noqa
                 return {"log": cap.take(), "init": ["exc", c_exn(e)]}
-            out = {"log": cap.take(), "init": ["ok", c_errs(h.validation_errors)], "adds": []}
+            out = {"log": cap.take(), "init": ["ok", c_errs(h.validation_errors)], "adds": [],
+                   "_header_is_the_header": w.header() is h}
             for r in recs:
                 try:
                     w += r
@@ -1366,6 +1367,22 @@ def impl_line_reader(lines, mode, reads, last_eol=True):
     out = {"header": head, "lineno": lr.line_number(), "peek": lr.peek_line(), "reads": []}
     for _ in range(reads):
         out["reads"].append([lr.read_line(), lr.line_number()])
+    # iterate what is left: next(), .next(), then a for loop; an empty line ends it like the end of the input
+    rest = []
+    try:
+        rest.append(next(lr))
+        rest.append(lr.next())
+        for l in lr:
+            rest.append(l)
+            if len(rest) > len(lines) + 3:
+                rest.append("<did not stop>")
+                break
+    except StopIteration:
+        pass
+    out["_iter"] = rest
+    out["_lineno_after_iter"] = lr.line_number()
+    lr.close()
+    out["_closed"] = lr._file.closed
     return out
 
 
@@ -1399,14 +1416,49 @@ def _so_obj(so):
     return cls()
 
 
-def impl_derive_args(src, version, annotation, so, contigs):
-    """src None: MafHeader.from_defaults(...); else the pragma lines of a reader: MafHeader.from_reader(reader, ...)"""
+def impl_derive_args(src, version, annotation, so, contigs, fai=None):
+    """src None: MafHeader.from_defaults(...); else the pragma lines of a reader: MafHeader.from_reader(reader, ...);
+    fai: contig names written as the first column of a scratch FASTA index handed over as fasta_index=path"""
     ensure_repo()
+    import os
+    import shutil
+    import tempfile
     from maflib.header import MafHeader
     from maflib.reader import MafReader
-    kw = dict(version=version, annotation=annotation, sort_order=_so_obj(so),
-              contigs=(list(contigs) if contigs is not None else None))
+    from maflib.scheme_factory import find_scheme
     out = {}
+    work = None
+    try:
+        if fai is not None:
+            os.makedirs("/verif/work", exist_ok=True)
+            work = tempfile.mkdtemp(prefix="rdf_", dir="/verif/work")
+            path = os.path.join(work, "ref.fa.fai")
+            with open(path, "w") as fh:
+                for i, name in enumerate(fai):
+                    fh.write("%s\t%d\t%d\t60\t61\n" % (name, 1000 + i, 7 * i))
+        so_obj = _so_obj(so)
+        if fai is not None and so is not None and so[0] == "inst" and so[1] in ("Coordinate", "BarcodesAndCoordinate") and not so[2]:
+            pass
+        kw = dict(version=version, annotation=annotation, sort_order=so_obj,
+                  contigs=(list(contigs) if contigs is not None else None))
+        if fai is not None:
+            kw["fasta_index"] = path
+        if src is None and version and annotation and so is None and not contigs and fai is None:
+            try:
+                sch = find_scheme(version=version, annotation=annotation)
+            except Exception:  # noqa
+                sch = None
+            if sch is not None:
+                out["_scheme_lines"] = MafHeader.scheme_header_lines(sch)
+        return _derive_args_run(src, kw, out)
+    finally:
+        if work is not None:
+            shutil.rmtree(work, ignore_errors=True)
+
+
+def _derive_args_run(src, kw, out):
+    from maflib.header import MafHeader
+    from maflib.reader import MafReader
     try:
         if src is None:
             h = MafHeader.from_defaults(**kw)
@@ -1425,8 +1477,10 @@ def impl_derive_args(src, version, annotation, so, contigs):
     return out
 
 
-def wire_derive_args(src, version, annotation, so, contigs):
+def wire_derive_args(src, version, annotation, so, contigs, fai=None):
     ensure_repo()
+    if fai is not None:
+        contigs = list(fai)         # fasta_index=path must behave as contigs=[first column of each line]
     reg = [[S(v), S(a), B(nr), ([[]] if nr else [])] for (v, a, nr, _) in registry()]
     if so is None:
         sw = []
@@ -1474,10 +1528,19 @@ def impl_reader_header_report(lines, override=None):
     out = {"opened": c_errs(rd.header().validation_errors), "reader_opened": c_errs(rd.validation_errors)}
     n = 0
     try:
-        for _ in rd:
-            n += 1
+        if len(lines) % 2:
+            while True:             # the reader's own next(): no order enforcement, same parsing
+                try:
+                    rd.next()
+                except StopIteration:
+                    break
+                n += 1
+        else:
+            for _ in rd:
+                n += 1
     except Exception as e:  # noqa
         out["_end"] = c_exn(e)
+    out["_count"] = n
     out["read"] = c_errs(rd.header().validation_errors)
     out["reader_read"] = c_errs(rd.validation_errors)
     out["derived"] = c_errs(MafHeader.from_reader(rd).validation_errors)
